@@ -97,7 +97,16 @@ func ZZ_C20_Sync() {
 func ZZ_C20_Sym() {
 	cfg := zzCfgFromParams()
 	cfg.stats = true
-	zzRunSym("c20", cfg)
+	s := zzRunSym("c20", cfg)
+	if s.env.cfg.deferred && s.env.cfg.expiry == zzExpNone {
+		// several writes were recorded before maintenance ran (weights symbolic: oversized values occur): the pending
+		// maintenance runs now; the eviction counters must cover exactly the Overflow removals it reports
+		s.env.ex.Run()
+		s.env.c.CleanUp()
+		s.env.ex.Run()
+		s.syncEvents("c20.drain")
+		s.checkStats("c20.drain")
+	}
 }
 
 func init() {
